@@ -226,6 +226,25 @@ func init() {
 				complete = complete && done
 				r.Extra["wide_domain_L_completed"] = L
 			}
+			// part-count dimension: structured locations of 6..12 (thorough 20) parts x every i x n in {1,2} x {insert, embed}
+			maxParts := 12
+			if r.Tier == "thorough" {
+				maxParts = 20
+			}
+			for parts := 6; parts <= maxParts && complete; parts++ {
+				L, locs := manyPartLocs(parts)
+				r.States.Add(int64(len(locs)))
+				for _, loc := range locs {
+					for i := 0; i <= L; i++ {
+						for n := 1; n <= 2; n++ {
+							for _, op := range []string{"insert", "embed"} {
+								eval(c02Case{Op: op, L: L, Locs: []string{locdom.Encode(loc)}, I: i, N: n}, true)
+							}
+						}
+					}
+				}
+				r.Extra["many_parts_completed"] = parts
+			}
 			// guest features: every contiguous guest location (and complement) for n=1..3,
 			// against a small host table, every i.
 			for n := 1; n <= 3 && complete; n++ {
